@@ -101,3 +101,124 @@ pub fn verify_sha256_stub(data: &[u8], key: &[u8], expected: &[u8]) -> Result<()
         Err(StunParseError::IntegrityCheckFailed)
     }
 }
+
+// ---------------------------------------------------------------------------------------------
+// Memoising stubs for harnesses that run the builder AND the parser/validator on the same
+// message: the hash is an uninterpreted function -- unconstrained output, but the same input
+// gives the same output (one-entry memo per primitive, inputs up to MEMO bytes compared in full).
+
+pub const MEMO: usize = 80;
+
+pub struct Memo {
+    pub have: bool,
+    pub len: usize,
+    pub data: [u8; MEMO],
+    pub key_len: usize,
+    pub key: [u8; 4],
+    pub out: [u8; 32],
+    pub calls: usize,
+}
+
+impl Memo {
+    pub const fn new() -> Memo {
+        Memo { have: false, len: 0, data: [0; MEMO], key_len: 0, key: [0; 4], out: [0; 32], calls: 0 }
+    }
+    fn matches(&self, data: &[u8], key: &[u8]) -> bool {
+        if !self.have || self.len != data.len() || self.key_len != key.len() {
+            return false;
+        }
+        let mut same = true;
+        let mut i = 0;
+        while i < MEMO {
+            if i < data.len() && self.data[i] != data[i] {
+                same = false;
+            }
+            i += 1;
+        }
+        let mut j = 0;
+        while j < 4 {
+            if j < key.len() && self.key[j] != key[j] {
+                same = false;
+            }
+            j += 1;
+        }
+        same
+    }
+    fn store(&mut self, data: &[u8], key: &[u8], out: [u8; 32]) {
+        assert!(data.len() <= MEMO && key.len() <= 4, "harness bound: memo input too long");
+        self.have = true;
+        self.len = data.len();
+        let mut i = 0;
+        while i < MEMO {
+            if i < data.len() {
+                self.data[i] = data[i];
+            }
+            i += 1;
+        }
+        self.key_len = key.len();
+        let mut j = 0;
+        while j < 4 {
+            if j < key.len() {
+                self.key[j] = key[j];
+            }
+            j += 1;
+        }
+        self.out = out;
+    }
+    /// value of the uninterpreted function at (data, key)
+    fn eval(&mut self, data: &[u8], key: &[u8]) -> [u8; 32] {
+        self.calls += 1;
+        if self.matches(data, key) {
+            return self.out;
+        }
+        let out: [u8; 32] = kani::any();
+        self.store(data, key, out);
+        out
+    }
+}
+
+pub static mut M_CRC: Memo = Memo::new();
+pub static mut M_SHA1: Memo = Memo::new();
+pub static mut M_SHA256: Memo = Memo::new();
+
+pub fn crc_memo_stub(data: &[u8]) -> [u8; 4] {
+    let o = unsafe { M_CRC.eval(data, &[]) };
+    [o[0], o[1], o[2], o[3]]
+}
+
+pub fn sha1_compute_memo_stub(data: &[u8], key: &[u8]) -> Result<[u8; 20], StunWriteError> {
+    let o = unsafe { M_SHA1.eval(data, key) };
+    let mut r = [0u8; 20];
+    r.copy_from_slice(&o[..20]);
+    Ok(r)
+}
+
+pub fn sha256_compute_memo_stub(data: &[u8], key: &[u8]) -> Result<[u8; 32], StunWriteError> {
+    Ok(unsafe { M_SHA256.eval(data, key) })
+}
+
+pub fn sha1_verify_memo_stub(data: &[u8], key: &[u8], expected: &[u8; 20]) -> Result<(), StunParseError> {
+    let o = unsafe { M_SHA1.eval(data, key) };
+    let mut eq = true;
+    let mut i = 0;
+    while i < 20 {
+        if o[i] != expected[i] {
+            eq = false;
+        }
+        i += 1;
+    }
+    if eq { Ok(()) } else { Err(StunParseError::IntegrityCheckFailed) }
+}
+
+pub fn sha256_verify_memo_stub(data: &[u8], key: &[u8], expected: &[u8]) -> Result<(), StunParseError> {
+    let o = unsafe { M_SHA256.eval(data, key) };
+    let mut eq = expected.len() <= 32;
+    let mut i = 0;
+    while i < 32 {
+        if i < expected.len() && o[i] != expected[i] {
+            eq = false;
+        }
+        i += 1;
+    }
+    if eq { Ok(()) } else { Err(StunParseError::IntegrityCheckFailed) }
+}
